@@ -218,6 +218,39 @@ func registerReflectTypeOf(e *Engine) {
 		}
 		return &IfaceVal{T: types.NewPointer(rt), V: mkPtr(&Cell{V: &NativeVal{V: iv.T}})}, true
 	}
+	handle := func(x *Exec, v Value) types.Type {
+		nv, ok := x.deref(v.(*PtrVal)).Load().(*NativeVal)
+		if !ok {
+			panic(unsupported("reflect.Type receiver is not a modelled handle"))
+		}
+		return nv.V.(types.Type)
+	}
+	e.intrinsics["(*reflect.rtype).Kind"] = func(x *Exec, fn *ssa.Function, a []Value) (Value, bool) {
+		return mkBV(64, uint64(reflectKindOf(handle(x, a[0])))), true
+	}
+	e.intrinsics["(*reflect.rtype).Elem"] = func(x *Exec, fn *ssa.Function, a []Value) (Value, bool) {
+		var el types.Type
+		switch u := handle(x, a[0]).Underlying().(type) {
+		case *types.Pointer:
+			el = u.Elem()
+		case *types.Slice:
+			el = u.Elem()
+		case *types.Array:
+			el = u.Elem()
+		case *types.Map:
+			el = u.Elem()
+		default:
+			x.goPanicf("reflect: Elem of invalid type")
+		}
+		rt := x.eng.findType("reflect", "rtype")
+		return &IfaceVal{T: types.NewPointer(rt), V: mkPtr(&Cell{V: &NativeVal{V: el}})}, true
+	}
+	e.intrinsics["(*reflect.rtype).Name"] = func(x *Exec, fn *ssa.Function, a []Value) (Value, bool) {
+		if n, ok := handle(x, a[0]).(*types.Named); ok {
+			return mkStr(n.Obj().Name()), true
+		}
+		return mkStr(""), true
+	}
 	e.intrinsics["(*reflect.rtype).String"] = func(x *Exec, fn *ssa.Function, a []Value) (Value, bool) {
 		nv, ok := x.deref(a[0].(*PtrVal)).Load().(*NativeVal)
 		if !ok {
@@ -248,6 +281,114 @@ func registerReflectliteTypeOf(e *Engine) {
 		}
 		return mkBool(types.Comparable(nv.V.(types.Type))), true
 	}
+}
+
+// reflect.ValueOf(x).Kind() / IsNil() / IsValid(): the Value struct carries a handle on the interface value
+func registerReflectValueOf(e *Engine) {
+	e.intrinsics["reflect.ValueOf"] = func(x *Exec, fn *ssa.Function, a []Value) (Value, bool) {
+		vt := x.eng.findType("reflect", "Value")
+		if vt == nil {
+			panic(unsupported("reflect.Value not in program"))
+		}
+		sv := zeroValue(vt).(*StructVal)
+		nf := &StructVal{F: append([]Value{}, sv.F...)}
+		nf.F[1] = &NativeVal{V: a[0].(*IfaceVal)}
+		return nf, true
+	}
+	held := func(v Value) *IfaceVal {
+		nv, ok := v.(*StructVal).F[1].(*NativeVal)
+		if !ok {
+			return nilIface // the zero Value
+		}
+		return nv.V.(*IfaceVal)
+	}
+	e.intrinsics["(reflect.Value).IsValid"] = func(x *Exec, fn *ssa.Function, a []Value) (Value, bool) {
+		return mkBool(held(a[0]).T != nil), true
+	}
+	e.intrinsics["(reflect.Value).Kind"] = func(x *Exec, fn *ssa.Function, a []Value) (Value, bool) {
+		iv := held(a[0])
+		if iv.T == nil {
+			return mkBV(64, 0), true
+		}
+		return mkBV(64, uint64(reflectKindOf(iv.T))), true
+	}
+	e.intrinsics["(reflect.Value).IsNil"] = func(x *Exec, fn *ssa.Function, a []Value) (Value, bool) {
+		iv := held(a[0])
+		if iv.T == nil {
+			x.goPanicf("reflect: call of reflect.Value.IsNil on zero Value")
+		}
+		switch t := iv.V.(type) {
+		case *PtrVal:
+			return t.Nil, true
+		case *SliceVal:
+			return mkBool(t.Nil), true
+		case *MapVal:
+			return mkBool(t.M == nil), true
+		case *IfaceVal:
+			return mkBool(t.T == nil), true
+		case *FuncVal:
+			return TFalse, true
+		}
+		x.goPanicf("reflect: call of reflect.Value.IsNil on a non-nillable value")
+		return nil, true
+	}
+}
+
+func reflectKindOf(t types.Type) int {
+	switch u := t.Underlying().(type) {
+	case *types.Basic:
+		switch u.Kind() {
+		case types.Bool:
+			return 1
+		case types.Int:
+			return 2
+		case types.Int8:
+			return 3
+		case types.Int16:
+			return 4
+		case types.Int32:
+			return 5
+		case types.Int64:
+			return 6
+		case types.Uint:
+			return 7
+		case types.Uint8:
+			return 8
+		case types.Uint16:
+			return 9
+		case types.Uint32:
+			return 10
+		case types.Uint64:
+			return 11
+		case types.Uintptr:
+			return 12
+		case types.Float32:
+			return 13
+		case types.Float64:
+			return 14
+		case types.String:
+			return 24
+		case types.UnsafePointer:
+			return 26
+		}
+	case *types.Array:
+		return 17
+	case *types.Chan:
+		return 18
+	case *types.Signature:
+		return 19
+	case *types.Interface:
+		return 20
+	case *types.Map:
+		return 21
+	case *types.Pointer:
+		return 22
+	case *types.Slice:
+		return 23
+	case *types.Struct:
+		return 25
+	}
+	return 0
 }
 
 func mkSliceOfIface(sl *SliceVal) Value {
